@@ -62,3 +62,42 @@ pub open spec fn sig_matches(callee: Fn, s: Map<Seq<char>, Ty>, args: Seq<MonoEx
     &&& is_apply(callee.ret_ty, s, call_ty)
     &&& forall|i: int| #![trigger callee.params@[i]] 0 <= i < callee.params@.len() && i < args.len() ==> is_apply(callee.params@[i].1, s, mono_ty(args[i]))
 }
+
+// ---- which functions are generic (C07: a function is specialised iff its signature mentions a type parameter) ----
+pub open spec fn mentions_tparam(t: Ty) -> bool
+    decreases t,
+{
+    match t {
+        Ty::TParam { .. } => true,
+        Ty::TTuple { typs } => mt_list(typs@, typs@.len() as int),
+        Ty::TApp { ty, args } => mentions_tparam(*ty) || mt_list(args@, args@.len() as int),
+        Ty::TArray { len: _, elem } => mentions_tparam(*elem),
+        Ty::TVec { elem } => mentions_tparam(*elem),
+        Ty::TRef { elem } => mentions_tparam(*elem),
+        Ty::TFunc { params, ret_ty } => mt_list(params@, params@.len() as int) || mentions_tparam(*ret_ty),
+        _ => false,
+    }
+}
+// ... one of the first n types of the list does
+pub open spec fn mt_list(ts: Seq<Ty>, n: int) -> bool
+    decreases ts, n,
+{
+    if n <= 0 || n > ts.len() { false } else { mt_list(ts, n - 1) || mentions_tparam(ts[n - 1]) }
+}
+pub proof fn lemma_mt_hit(ts: Seq<Ty>, k: int, n: int)
+    requires 0 <= k < n <= ts.len(), mentions_tparam(ts[k]),
+    ensures mt_list(ts, n),
+    decreases n,
+{
+    reveal_with_fuel(mt_list, 2);
+    if k < n - 1 { lemma_mt_hit(ts, k, n - 1); }
+}
+pub broadcast proof fn lemma_mt_any(ts: Seq<Ty>, k: int)
+    requires 0 <= k < ts.len(), #[trigger] mentions_tparam(ts[k]),
+    ensures mt_list(ts, ts.len() as int),
+{
+    lemma_mt_hit(ts, k, ts.len() as int);
+}
+pub open spec fn sig_mentions_tparam(f: Fn) -> bool {
+    f.generics@.len() > 0 || (exists|i: int| 0 <= i < f.params@.len() && mentions_tparam((#[trigger] f.params@[i]).1)) || mentions_tparam(f.ret_ty)
+}
